@@ -245,8 +245,9 @@ func (tp *TableParser) parseCell(cell tableCellXML) ParsedTableCell {
 	if props.VMerge.Val == "restart" {
 		// This cell starts a vertical merge
 		parsed.RowSpan = 1 // Will be calculated in processVerticalMerges
-	} else if props.VMerge.Val == "" && props.VMerge.XMLName.Local == "vMerge" {
-		// This cell continues a vertical merge (empty val means continue)
+	} else if props.VMerge.XMLName.Local == "vMerge" && (props.VMerge.Val == "" || props.VMerge.Val == "continue") {
+		// This cell continues a vertical merge (w:val defaults to "continue"
+		// and may also be spelled out)
 		parsed.IsMergedContinuation = true
 	}
 
